@@ -11,6 +11,26 @@ CHECKS = {
         technique="Hypothesis round trip encoder->segmenter->decoder on the real Server.write_response/Client.parse_response; exhaustive enumeration of Code.matches",
         text="Generated reply sequences (all codes, 1-6 lines, plain/list framing, 3 encodings, generated segmentations) are encoded by the real server code and decoded by the real client code and compared line by line; a reply with a foreign continuation code must raise StatusCodeError and leave the stream in sync; Code.matches is compared with the digit-wise specification on every (code, mask) pair (exhaustive); Server.parse_command round trip. Exploration is the right level: the domain is unbounded text, the oracle (round trip) is exact.",
         note="Assumes lines without CR/LF compared modulo trailing whitespace; encodings utf-8/latin-1/cp1251. Trusted: asyncio.StreamReader. Mutants caught: encoder dropping a body line, decoder comparing only the first digit of continuation codes, matches() looking at the first digit only."),
+    "C01": dict(
+        category="exploration", design_ref="3/C01",
+        technique="Hypothesis: payload x offset x chunking x block size x backend x throttle x network tape, real aioftp.Client against the real server on a simulated network; oracle = byte model",
+        text="Generated operation lists (STOR/APPE/RETR whole and at restart offsets inside, at and beyond the end) with block-boundary sizes and adversarial byte patterns are driven through the real client; after every completion reply the backend bytes (read directly), stat and MLSD sizes and a whole download seen by a second session must equal a dict-of-bytes model; downloads are compared byte for byte.",
+        note="Trusted: simnet; byte model (20 lines). Mutants caught: missing seek in retr_worker, 'wb' with a restart offset, dropping the last byte of full blocks, iterator stopping on a CR/LF block."),
+    "C08": dict(
+        category="exploration", design_ref="3/C08",
+        technique="Hypothesis names biased to protocol metacharacters through every path-taking client method on a simulated network; oracle = backend tree identity",
+        text="For generated names (quotes, space runs, ';', '=', ' -> ', 3-digit prefixes, backslash, '%', combining/astral/control characters) a directory and a file of that name are created, entered, reported by PWD, listed, stat'ed, uploaded to, downloaded, renamed away and back, listed recursively and removed through the real client against the real server (memory and PathIO, MLSD and LIST-only); after each step the backend tree read directly must contain exactly that name.",
+        note="Leading-whitespace names against LIST-only servers are excluded and counted (inherent to the ls column format, see DESIGN F12). Found and fixed the PWD quoting defect."),
+    "C09": dict(
+        category="exploration", design_ref="3/C09",
+        technique="Hypothesis trees x destination x write_into x cwd x MLSD/LIST server through the real client on a simulated network; oracle = placement specification + multiset equality",
+        text="Generated trees are uploaded/downloaded/listed recursively/removed through the real client; the resulting tree must equal initial + ancestors(root) + copy(source -> root) with root computed from the documented placement rule, listings must contain every entry exactly once with the right path and type, remove must delete the subtree and nothing else. Any exception from a valid operation is a violation.",
+        note="Server on MemoryPathIO, client on MemoryPathIO. Found and fixed the directory upload placement defect."),
+    "C20": dict(
+        category="exploration", design_ref="3/C20",
+        technique="Hypothesis login sessions run three times with equal-length passwords differing in every position: non-interference of the fully formatted log streams, plus substring search",
+        text="Each generated scenario (Client.login / Client.context / raw USER+PASS in 6 orders, 3 verb spellings, accepted or rejected) is run on simnet with three passwords of equal length (two over disjoint alphabets with the same special items, one with the special items replaced by plain characters); all log records (root, aioftp.*, asyncio; message, args, exception text) must be identical across the runs, which is exactly 'at most the length is revealed'; distinctive 4-character windows of the password must not occur in any record.",
+        note="Deterministic logs are a by-product of simnet (virtual clock, fixed ports). Mutants caught: case-sensitive censoring, client censoring only short commands, 530 reply echoing the argument, star count depending on the content."),
     "C03": dict(
         category="exploration", design_ref="3/C03",
         technique="Hypothesis-generated state-aware command histories (auth-heavy) on a simulated network vs an auth automaton + instrumented backend + network ledger",
